@@ -170,6 +170,7 @@ func runCacheHistory(c *fw.Ctx, mutable bool, nsteps, maxDepth int) {
 		return
 	}
 	c.Count("trees", 1)
+	c.Count("node_objects_reused_with_an_edited_payload", int64(w.reusedObjects))
 	c.Count("forks", int64(forks))
 	c.Count("gaps", int64(gaps))
 	c.Count("removals", int64(removals))
@@ -337,7 +338,7 @@ func init() {
 	fw.Register(&fw.Prop{
 		ID:    "C07",
 		Level: "exploration",
-		Rule: "same block-tree generator as C06 but with mutable values (byte-slice value with deep Clone, and real trie nodes: leaf, branch, extension, value node). After every Set the harness overwrites the object it handed in, after every hit it overwrites the object it received. " +
+		Rule: "same block-tree generator as C06 but with mutable values (byte-slice value with deep Clone, and real trie nodes: leaf, branch, extension, value node). After every Set the harness overwrites the object it handed in, after every hit it overwrites the object it received; one Set in eight hands in a leaf object that was used before, with a new payload written into its value object in place (the expected content comes from an equivalent node built from scratch). " +
 			"Oracle: the C06 model plus visibility: a transaction's writes/removals are visible only to itself until its commit, a block's only to its own caches until the block commits; own uncommitted entries must hit; after commit, lookups in descendant contexts whose chain is fully committed " +
 			"must HIT with the logical content originally set (workloads stay an order of magnitude below every capacity: <100 versions per key, <1000 commits). non-trivial = tree with a fork and >=3 commits; distinct by trace hash",
 		Cases: func(tier string) int {
@@ -347,7 +348,7 @@ func init() {
 			return 64000
 		},
 		Run:    runC07,
-		Floors: map[string]int64{"lookups_through_caches_of_committed_blocks": 100000, "late_writes_into_committed_block_caches": 20000, "late_removals_into_committed_block_caches": 2000, "repeated_commits_of_a_committed_block_cache": 5000, "trees": 50000, "lookups": 3000000, "hits": 100000, "misses": 50000, "removals": 5000, "abandoned": 5000, "must_hit_assertions": 500000},
+		Floors: map[string]int64{"lookups_through_caches_of_committed_blocks": 100000, "node_objects_reused_with_an_edited_payload": 50000, "late_writes_into_committed_block_caches": 20000, "late_removals_into_committed_block_caches": 2000, "repeated_commits_of_a_committed_block_cache": 5000, "trees": 50000, "lookups": 3000000, "hits": 100000, "misses": 50000, "removals": 5000, "abandoned": 5000, "must_hit_assertions": 500000},
 		Assumptions: []string{
 			"must-hit assertions only within capacity (see rule); elsewhere miss-or-right-value",
 		},
